@@ -153,11 +153,12 @@ func lostUpdate(c *Ctx) {
 				o.Name()+" is a copy of an element of "+exprStr(container)+"; "+why+": the change is lost")
 		}
 	}
-	if count["C19"] < 2 {
-		c.S.Undecided("C19", "LOST-UPDATE", "floor", "-", fmt.Sprintf("%d modified copies found in fixer.go (confirmed by hand: 2)", count["C19"]))
+	// floors: at least one instance each (two and four on the pinned tree; a shared helper legitimately merges them)
+	if count["C19"] < 1 {
+		c.S.Undecided("C19", "LOST-UPDATE", "floor", "-", "no modified copy of a map element found in the fixer (two on the pinned tree)")
 	}
-	if count["C01"] < 4 {
-		c.S.Undecided("C01", "LOST-UPDATE", "floor", "-", fmt.Sprintf("%d modified copies found in the rewriters (confirmed by hand: 4)", count["C01"]))
+	if count["C01"] < 1 {
+		c.S.Undecided("C01", "LOST-UPDATE", "floor", "-", "no modified copy of a container element found in the rewriters (four on the pinned tree)")
 	}
 }
 
